@@ -7,6 +7,7 @@ from harness import seams  # noqa
 from harness.runner import Check, merge_stats, jdec
 from harness import collide as C
 from harness import protocol as P
+from harness import scenarios as S
 from harness import kernel as K
 from harness import forge as F
 from harness.world import State, HarnessError
@@ -457,6 +458,71 @@ def recv_failure_then_refusal():
     return n, out
 
 
+def initial_contact_cases():
+    """the peer has restarted and comes back from the same address with a new IKE_SA whose IKE_AUTH request carries
+    INITIAL_CONTACT (RFC 7296 2.4), while this end still holds the old IKE_SA - idle, or in the middle of an exchange of
+    its own.  Whatever this end does with the old IKE_SA, its kernel and its tracking agree afterwards."""
+    import ikesa
+    import configuration
+    from ipaddress import ip_address
+    from message import PayloadNOTIFY
+    from harness.seams import CTX
+    from harness.world import Endpoint
+    out, n = [], 0
+    for old_state in ('idle', 'liveness-check-outstanding', 'create-child-sa-outstanding', 'ike-rekey-outstanding', 'child-rekey-outstanding'):
+        n += 1
+        lab = 'initial-contact:%s' % old_state
+        w = C.build(dict(config='match', budget=dict(trig=0, fault=0)))
+        b = w.endpoints['B']
+        if old_state == 'liveness-check-outstanding':
+            w.step(('due', 'B', 0, 'dpd'))
+        elif old_state == 'create-child-sa-outstanding':
+            w.step(('acquire', 'B', 0, 0))
+        elif old_state == 'ike-rekey-outstanding':
+            w.step(('due', 'B', 0, 'rekey_ike'))
+        elif old_state == 'child-rekey-outstanding':
+            w.step(('expire', 'B', bytes(b.controller.ike_sas[0].child_sas[0].inbound_spi), False))
+        w.net[:] = []                       # the old peer is gone: nothing of this is ever answered
+        w.step(('crash', 'A'))
+        f_ep = Endpoint('F', [S.IP_A])
+        f_ep.world = w
+
+        def as_f(fn):
+            CTX.world, CTX.ep = w, f_ep
+            try:
+                return fn()
+            finally:
+                CTX.world, CTX.ep = None, None
+        confs = C.CONFIGS['match']()
+        conf = as_f(lambda: configuration.Configuration([ip_address(S.IP_A)], confs['A']))
+        ikeconf = conf.get_ike_configuration(ip_address(S.IP_A), ip_address(S.IP_B))
+        entry = ikeconf.protect[0]
+        init = as_f(lambda: ikesa.IkeSa(True, b'\0' * 8, ikeconf, ip_address(S.IP_A), ip_address(S.IP_B)))
+        msg1 = bytes(as_f(lambda: init.process_acquire(entry.my_ts, entry.peer_ts, entry.index)))
+        w.step(('inject', 'B', msg1, S.IP_A))
+        resp = [d for d in w.net if d.sender == 'B' and d.data[18] == 34]
+        if not resp:
+            raise HarnessError('%s: no IKE_SA_INIT response for the restarted peer' % lab)
+        w.net[:] = []
+        as_f(lambda: init.process_message(resp[0].data))
+        init.request.encrypted_payloads.append(PayloadNOTIFY(0, 16384))          # INITIAL_CONTACT
+        w.step(('inject', 'B', bytes(as_f(lambda: init.request.to_bytes())), S.IP_A))
+        w.net[:] = []
+        if not b.alive:
+            out.append(('M-exc', 'initial-contact-escape:%s' % b.dead_reason[0], '%s: %s left main_loop of B' % (lab, b.dead_reason[0]), lab))
+            continue
+        for _ in range(3):
+            w.step(('tick', 1.5))
+            w.net[:] = []
+        o, m = P.sad_diff(b)
+        if o or m:
+            out.append(('M-sad', 'initial-contact:orphan=%d:missing=%d' % (len(o), len(m)),
+                        '%s: after the restarted peer set up a new IKE_SA with INITIAL_CONTACT, B: untracked=%s absent=%s (IKE_SAs %s)' % (
+                            lab, sorted((a_, p_, x.hex()) for a_, p_, x in o), sorted((a_, p_, x.hex()) for a_, p_, x in m),
+                            [x.state.name for x in b.controller.ike_sas]), lab))
+    return n, out
+
+
 def run_foreign(i):
     ex = C.explore(FOREIGN_SCENARIOS[i], [], [sm_foreign], quick=ck.quick, max_states=None if ck.quick else 200000,
                    jobs=0 if ck.quick else ck.jobs)
@@ -466,7 +532,7 @@ def run_foreign(i):
 def replay(path):
     doc = jdec(json.load(open(path)))
     if doc['scenario'].get('giveup'):
-        res = [x for x in giveup_faults()[1] + recv_failure_then_refusal()[1] if x[3] == doc['scenario']['giveup']]
+        res = [x for x in giveup_faults()[1] + recv_failure_then_refusal()[1] + initial_contact_cases()[1] if x[3] == doc['scenario']['giveup']]
         for r in res:
             print('reproduced:', r[0], r[1], r[2])
         print('REPLAY %s' % ('reproduces a violation' if res else 'does not reproduce'))
@@ -497,8 +563,9 @@ def main():
     # each other, which the search reports as a harness error (replays diverge) - these cases still give their verdict then
     n_giveup, gv = giveup_faults()
     n_two, gv2 = recv_failure_then_refusal()
-    n_giveup += n_two
-    gv = list(gv) + gv2
+    n_ic, gv3 = initial_contact_cases()
+    n_giveup += n_two + n_ic
+    gv = list(gv) + gv2 + gv3
     for mon, sig, msg, lab in gv:
         ck.violation('%s:%s' % (mon, sig), msg, dict(scenario=dict(giveup=lab), history=[]))
     cover['giveup-fault-reexecutions'] = n_giveup
